@@ -3,17 +3,23 @@
 package zzverifecs
 
 import (
+	"errors"
 	"fmt"
 	"math"
+	"net/netip"
 	"os"
 	"strings"
 	"testing"
 	"testing/synctest"
 	"time"
 
+	"github.com/AdguardTeam/AdGuardDNS/internal/agdcache"
+	"github.com/AdguardTeam/AdGuardDNS/internal/agdtest"
 	"github.com/AdguardTeam/AdGuardDNS/internal/dnsmsg"
 	"github.com/AdguardTeam/AdGuardDNS/internal/dnsserver/zzverif/vdns"
 	"github.com/AdguardTeam/AdGuardDNS/internal/dnsserver/zzverif/vrt"
+	"github.com/AdguardTeam/AdGuardDNS/internal/geoip"
+	"github.com/AdguardTeam/golibs/netutil"
 	"github.com/miekg/dns"
 )
 
@@ -276,6 +282,60 @@ func TestVerifC04ECS(t *testing.T) {
 
 			return nil
 		})
+		// A TRANSIENT GeoIP fault: SubnetByLocation fails for exactly one query
+		// of the history.  Whatever that query is answered with (not judged),
+		// nothing it leaves in the caches may change what later queries of
+		// located clients get: they must be answered as by a fresh cache with a
+		// healthy database.  Every client of this alphabet has a location with a
+		// subnet, so no legitimate zero-prefix upstream query exists here.
+		flt := []*ecsQuery{
+			q(c04X1, "dep.", dns.TypeA, dns.ClassINET, false, false, ""),
+			q(c04Y1, "dep.", dns.TypeA, dns.ClassINET, false, false, ""),
+			q(c04X1, "dep.", dns.TypeA, dns.ClassINET, true, false, ""),
+			q(c04Y1, "dep.", dns.TypeA, dns.ClassINET, false, false, "10.1.3.0/24"),
+			q(c04X1, "dep.", dns.TypeA, dns.ClassINET, false, false, "0.0.0.0/0"),
+			q("2001:db8:1::5", "dep.", dns.TypeA, dns.ClassINET, false, false, ""),
+		}
+		vrt.Part(r, "ecs-geoip-fault", func(emit func(c04fCase)) {
+			vrt.Sequences(len(flt), 2, vrt.Pick(r, 3, 4), func(seq []int) {
+				for at := 0; at < len(seq)-1; at++ {
+					emit(c04fCase{Events: append([]int{}, seq...), FaultAt: at})
+				}
+			})
+		}, func(c c04fCase) []vrt.Finding {
+			failing := false
+			geo := &agdtest.GeoIP{
+				OnData: ecsGeoIP.OnData,
+				OnSubnetByLocation: func(l *geoip.Location, fam netutil.AddrFamily) (netip.Prefix, error) {
+					if failing {
+						return netip.Prefix{}, errors.New("geoip: scripted subnet lookup failure")
+					}
+
+					return ecsGeoIP.OnSubnetByLocation(l, fam)
+				},
+			}
+			rig := ecsNewRigGeo("ok", false, geo, agdcache.EmptyManager{})
+			for i, ei := range c.Events {
+				failing = i == c.FaultAt
+				resp, _, err := rig.query(*flt[ei], uint16(0x200+i))
+				failing = false
+				r.Trans(1)
+				if i == c.FaultAt {
+					r.State(fmt.Sprint(c.Events[:i+1], "faulted: err=", err != nil, vdns.Canon(resp, false)))
+
+					continue
+				}
+				fresp, _, ferr := ecsNewRig("ok", false).query(*flt[ei], uint16(0x200+i))
+				got, want := fmt.Sprintf("err=%v %s ecs=%s", err != nil, vdns.Canon(resp, false), ecsRespOpt(resp)), fmt.Sprintf("err=%v %s ecs=%s", ferr != nil, vdns.Canon(fresp, false), ecsRespOpt(fresp))
+				if got != want {
+					return vrt.F("ecs-geoip-fault/cached-differs-from-fresh", "query %+v after %v with the subnet lookup failing at step %d:\n   warm : %s\n   fresh: %s", *flt[ei], c.Events[:i], c.FaultAt, got, want)
+				}
+				r.State(fmt.Sprint(c.Events[:i+1], c.FaultAt, got))
+			}
+			r.Class("geoip-fault")
+
+			return nil
+		})
 	})
 	r.Finish()
 	os.Exit(0)
@@ -283,4 +343,10 @@ func TestVerifC04ECS(t *testing.T) {
 
 type c04bCase struct {
 	Events []int `json:"events"`
+}
+
+type c04fCase struct {
+	Events []int `json:"events"`
+	// FaultAt is the step at which the GeoIP subnet lookup fails.
+	FaultAt int `json:"geoip_subnet_lookup_fails_at_step"`
 }
